@@ -521,7 +521,10 @@ class MetadorGroup(MetadorNode):
             # (looked up in the container of the SOURCE node, which can be another one)
             src_meta = src_node._self_container.__wrapped__[src_node.meta._base_dir]
             dst_meta: str = dst_node.meta._base_dir  # node will not exist yet
-            self.__wrapped__.copy(src_meta, dst_meta, **copy_kwargs)  # RAW
+            # (absolute path -> copy from the container root, HDF5 can fail to
+            # copy to an absolute destination from a sub-group location)
+            raw_root = self._self_container.__wrapped__
+            raw_root.copy(src_meta, dst_meta, **copy_kwargs)  # RAW
 
             # register in TOC:
             dst_meta_node = self.__wrapped__[dst_meta]
